@@ -60,8 +60,14 @@ func genericGuards(r *Run) {
 	}
 }
 
+var c02Admission = Scope{Include: []string{"pkg/mpc/"}, Exclude: []string{"pkg/mpc/sharing/"},
+	AtomRe: regexp.MustCompile(`msp\.\(\*MSP\)\.Accepts|\.IsQualified|\.CanReconstruct`)}
+
 func checkC02(r *Run) {
 	genericGuards(r)
+	// quorum admission in protocols: every constructor/aggregator that tests the key's MSP against the
+	// quorum keeps that test, on every path, with the same operands (discovered by the atom, not by name)
+	r.CheckGuardInventory("C02.A1", "C02_admission_guards.json", c02Admission, 12)
 	r.CheckOperandImmutability("C02.I1", Scope{Include: []string{"pkg/mpc/sharing/"}}, 20)
 }
 func checkC04(r *Run) {
